@@ -149,14 +149,14 @@ Qed.
 (* getConsensusObservation, taken apart *)
 Lemma get_consensus_inv bigF dest fchain paos g :
   EM.get_consensus bigF dest fchain paos = Ok g ->
-  EM.merge_commits fchain paos = Ok (EM.g_commits g) /\ EM.merge_msgs fchain paos = Ok (EM.g_msgs g) /\
+  EM.merge_commits dest fchain paos = Ok (EM.g_commits g) /\ EM.merge_msgs fchain paos = Ok (EM.g_msgs g) /\
   EM.merge_tokens fchain paos = Ok (EM.g_tokens g) /\
   EM.g_costly g = EM.merge_costly (EM.f_dest dest fchain) paos /\
   EM.g_nonces g = EM.merge_nonces (EM.f_dest dest fchain) paos /\
   (bigF <= Z.of_nat (length paos))%Z.
 Proof.
   unfold EM.get_consensus. destruct (Z.ltb_spec (Z.of_nat (length paos)) bigF) as [Hlt|Hge]; [discriminate|].
-  destruct (EM.merge_commits fchain paos) as [cs| | |]; cbn [rbind]; try discriminate.
+  destruct (EM.merge_commits dest fchain paos) as [cs| | |]; cbn [rbind]; try discriminate.
   destruct (EM.merge_msgs fchain paos) as [ms| | |]; cbn [rbind]; try discriminate.
   destruct (EM.merge_tokens fchain paos) as [ts| | |]; cbn [rbind]; try discriminate.
   intros H. inversion H; subst g. cbn. repeat split; try reflexivity. lia.
@@ -181,10 +181,11 @@ Section Lifted.
   Lemma ND' : NoDup (map fst (to_aos aos)).
   Proof. now rewrite to_aos_fst. Qed.
 
-  (* a merged commit report of chain key j *)
+  (* a merged commit report of chain key j: a report OF chain j, agreed at the destination's f *)
   Lemma merged_commit_quorum j l x :
     In (j, l) (xg_commits m) -> In x l ->
-    exists f, In (j, f) fchain /\ quorum (xcommits_of j) (f_plus_1 f) aos x.
+    In j (EM.keys fchain) /\ c_src (xc_cd x) = j /\
+    quorum (xcommits_of j) (f_plus_1 (EM.f_dest dest fchain)) aos x.
   Proof.
     intros Hj Hx. destruct (x_consensus_inv _ _ _ _ _ Hcons) as [g [Hg ->]].
     destruct (get_consensus_inv _ _ _ _ _ Hg) as [Hc _].
@@ -193,8 +194,8 @@ Section Lifted.
     unfold by_ckey in Hx. apply sort_by_in in Hx. apply in_flat_map in Hx. destruct Hx as [c [Hc0 Hx]].
     apply rich_commit_in in Hx. destruct Hx as [E Hat]. subst c.
     destruct (EMP.merge_commits_sound sup dest fchain (to_aos aos) _ j l0 (to_commit x) ND' Hval Hc Hj Hc0)
-      as [f [Hf [Hs _]]].
-    exists f. split; [exact Hf|]. now apply supported_commit_quorum.
+      as [Hk [Hsrc [Hs _]]].
+    split; [exact Hk|]. split; [exact Hsrc|]. now apply supported_commit_quorum.
   Qed.
 
   (* a merged message of chain key k *)
@@ -384,15 +385,31 @@ Section Rounds.
       split; [exact Hp|]. now exists m, o'.
   Qed.
 
-  (* ---------- round 1: the pending reports are merged commit reports ---------- *)
-  Lemma commit_outcome_pending m cd :
-    In cd (o_pending (commit_reports_outcome m)) <-> exists j l x, In (j, l) (xg_commits m) /\ In x l /\ xc_cd x = cd.
+  (* ---------- round 1: the pending reports are merged commit reports (those without a conflicting one) ---------- *)
+  Lemma commit_outcome_flat m x :
+    In x (flat_map snd (sort_by (fun a b => N.leb (fst a) (fst b)) (xg_commits m))) <->
+    exists j l, In (j, l) (xg_commits m) /\ In x l.
   Proof.
-    unfold commit_reports_outcome. rewrite new_outcome_pending, in_map_iff. split.
-    - intros [x [E Hx]]. apply sort_by_in in Hx. apply in_flat_map in Hx. destruct Hx as [[j l] [Hj Hx]].
-      apply sort_by_in in Hj. now exists j, l, x.
-    - intros [j [l [x [Hj [Hx E]]]]]. exists x. split; [exact E|]. apply sort_by_in. apply in_flat_map.
-      exists (j, l). split; [now apply sort_by_in|exact Hx].
+    rewrite in_flat_map. split.
+    - intros [[j l] [Hj Hx]]. apply sort_by_in in Hj. now exists j, l.
+    - intros [j [l [Hj Hx]]]. exists (j, l). split; [now apply sort_by_in|exact Hx].
+  Qed.
+
+  Lemma commit_outcome_pending m cd :
+    In cd (o_pending (commit_reports_outcome m)) -> exists j l x, In (j, l) (xg_commits m) /\ In x l /\ xc_cd x = cd.
+  Proof.
+    unfold commit_reports_outcome. rewrite new_outcome_pending, in_map_iff.
+    intros [x [E Hx]]. apply sort_by_in in Hx. unfold drop_conflicting in Hx. apply filter_In in Hx. destruct Hx as [Hx _].
+    apply commit_outcome_flat in Hx. destruct Hx as [j [l [Hj Hx]]]. now exists j, l, x.
+  Qed.
+
+  Lemma commit_outcome_kept m x :
+    (exists j l, In (j, l) (xg_commits m) /\ In x l) ->
+    conflict_count x (flat_map snd (sort_by (fun a b => N.leb (fst a) (fst b)) (xg_commits m))) <= 1 ->
+    In (xc_cd x) (o_pending (commit_reports_outcome m)).
+  Proof.
+    intros Hx Hc. unfold commit_reports_outcome. rewrite new_outcome_pending. apply in_map. apply sort_by_in.
+    unfold drop_conflicting. apply filter_In. split; [now apply commit_outcome_flat|]. now apply Nat.leb_le.
   Qed.
 
   (* ---------- round 2: enriching a pending report ---------- *)
@@ -826,9 +843,9 @@ Section Cycle.
   Theorem cycle_message r mm :
     In r (o_report o3) -> In mm (r_msgs r) ->
     m_src mm = r_src r /\
-    exists (x : xcommit) (j : N) (fj : Z) (cd2 : cdata) (xm : xmsg) (fk : Z) (i p : nat) (td : tokdata),
-      (* (i) the commit report: agreed in the GetCommitReports round, under a chain key j, at f_j + 1 *)
-      In (j, fj) fc1 /\ quorum (xcommits_of j) (f_plus_1 fj) aos1 x /\
+    exists (x : xcommit) (cd2 : cdata) (xm : xmsg) (fk : Z) (i p : nat) (td : tokdata),
+      (* (i) the commit report: agreed in the GetCommitReports round, under its own source chain key, at f_dest + 1 *)
+      quorum (xcommits_of (r_src r)) (f_plus_1 (EM.f_dest dest fc1)) aos1 x /\
       c_src (xc_cd x) = r_src r /\
       PS.in_range (c_start (xc_cd x)) (c_end (xc_cd x)) (m_seq mm) = true /\
       In (xc_cd x) (o_pending o1) /\
@@ -868,15 +885,15 @@ Section Cycle.
     destruct (enrich_spec _ _ _ Hen) as [Es [Er [Ea [Ee [Ex [Hmsgs [Hcostly [tds [Etd Htds]]]]]]]]].
     assert (Hcd1' : In cd1 (o_pending (commit_reports_outcome m1))) by (rewrite <- E1; exact Hcd1).
     apply commit_outcome_pending in Hcd1'. destruct Hcd1' as [j [l [x [Hj [Hx Ecd]]]]]. subst cd1.
-    destruct (merged_commit_quorum sup bigF dest fc1 aos1 m1 ND1 V1 K1 C1 j l x Hj Hx) as [fj [Hfj Hq]].
+    destruct (merged_commit_quorum sup bigF dest fc1 aos1 m1 ND1 V1 K1 C1 j l x Hj Hx) as [_ [Hjsrc Hq]]. subst j.
     destruct (good_report_msg _ _ _ _ _ _ Hgood Hmm)
       as [Hsrc [Hms [Hrange [Hlen [i [td [p [Hi [Ht [Hne [Hnc [Hrd [Hp1 Hp2]]]]]]]]]]]]].
     destruct (Hmsgs mm (nth_error_In _ _ Hi)) as [xm [Hxm [Exm Hin]]].
     destruct (merged_msg_quorum sup bigF dest fc2 aos2 m2 ND2 V2 K2 C2 (c_src (xc_cd x)) xm Hxm) as [fk [Hfk Hqm]].
     split; [congruence|].
-    exists x, j, fj, cd2, xm, fk, i, p, td.
+    exists x, cd2, xm, fk, i, p, td.
     rewrite Hsrc, Es.
-    split; [exact Hfj|]. split; [exact Hq|]. split; [reflexivity|]. split; [exact Hin|]. split; [exact Hcd1|].
+    split; [exact Hq|]. split; [reflexivity|]. split; [exact Hin|]. split; [exact Hcd1|].
     split; [exact Hcd2|]. split; [exact Hgood|].
     split; [reflexivity|]. split; [exact Er|]. split; [exact Ea|]. split; [exact Ee|]. split; [exact Ex|].
     split; [now rewrite <- Ex|].
@@ -899,8 +916,8 @@ Section Cycle.
     (forall a b, hash a b = hash b a) ->
     (forall cd, In cd (o_pending o2) -> length (c_msgs cd) <= 256) ->
     In r (o_report o3) -> Forall2 (fun mm h => leaf_hash mm = Some h) (r_msgs r) hs ->
-    exists (x : xcommit) (j : N) (fj : Z),
-      In (j, fj) fc1 /\ quorum (xcommits_of j) (f_plus_1 fj) aos1 x /\ c_src (xc_cd x) = r_src r /\
+    exists (x : xcommit),
+      quorum (xcommits_of (r_src r)) (f_plus_1 (EM.f_dest dest fc1)) aos1 x /\ c_src (xc_cd x) = r_src r /\
       verify hash hs (r_proofs r) (flags_to_bools (r_flags r) (length hs + length (r_proofs r) - 1))
         = Ok (c_root (xc_cd x)).
   Proof.
@@ -913,9 +930,9 @@ Section Cycle.
       destruct idxs as [|i idxs]; [contradiction|]. destruct (Hin i (or_introl eq_refl)) as [_ [m' [_ [Hm' _]]]].
       exists m'. rewrite (select_cons _ _ _ _ Hm'). now left. }
     destruct Hne as [mm Hmm].
-    destruct (cycle_message r mm Hr Hmm) as [_ [x [j [fj [cd2 [xm [fk [i [p [td H]]]]]]]]]].
-    destruct H as [Hfj [Hq [Hsrc [_ [_ [Hcd2 [Hgood [_ [Hroot _]]]]]]]]].
-    exists x, j, fj. split; [exact Hfj|]. split; [exact Hq|]. split; [exact Hsrc|].
+    destruct (cycle_message r mm Hr Hmm) as [_ [x [cd2 [xm [fk [i [p [td H]]]]]]]].
+    destruct H as [Hq [Hsrc [_ [_ [Hcd2 [Hgood [_ [Hroot _]]]]]]]].
+    exists x. split; [exact Hq|]. split; [exact Hsrc|].
     rewrite <- Hroot.
     exact (good_report_provable hash zero leaf_hash enc_size tree_gas max_gas cd2 r hs Hcomm (Hmax cd2 Hcd2) Hgood Hhs).
   Qed.
@@ -924,15 +941,15 @@ Section Cycle.
      hence: a sequence number that EVERY agreed commit report of chain k covering it lists as executed is in no
      chain report of chain k *)
   Theorem cycle_no_reexecution k s :
-    (forall x j fj, In (j, fj) fc1 -> quorum (xcommits_of j) (f_plus_1 fj) aos1 x -> c_src (xc_cd x) = k ->
-                    PS.in_range (c_start (xc_cd x)) (c_end (xc_cd x)) s = true ->
-                    memN s (c_exec (xc_cd x)) = true) ->
+    (forall x, quorum (xcommits_of k) (f_plus_1 (EM.f_dest dest fc1)) aos1 x -> c_src (xc_cd x) = k ->
+               PS.in_range (c_start (xc_cd x)) (c_end (xc_cd x)) s = true ->
+               memN s (c_exec (xc_cd x)) = true) ->
     forall r mm, In r (o_report o3) -> In mm (r_msgs r) -> r_src r = k -> m_seq mm <> s.
   Proof.
     intros Hall r mm Hr Hmm Hk Hs.
-    destruct (cycle_message r mm Hr Hmm) as [_ [x [j [fj [cd2 [xm [fk [i [p [td H]]]]]]]]]].
-    destruct H as [Hfj [Hq [Hsrc [Hin [_ [_ [_ [_ [_ [_ [_ [_ [Hex _]]]]]]]]]]]]].
-    rewrite Hs in Hin, Hex. rewrite (Hall x j fj Hfj Hq (eq_trans Hsrc Hk) Hin) in Hex. discriminate.
+    destruct (cycle_message r mm Hr Hmm) as [_ [x [cd2 [xm [fk [i [p [td H]]]]]]]].
+    destruct H as [Hq [Hsrc [Hin [_ [_ [_ [_ [_ [_ [_ [_ [Hex _]]]]]]]]]]]].
+    rewrite Hs in Hin, Hex. rewrite Hk in Hq. rewrite (Hall x Hq (eq_trans Hsrc Hk) Hin) in Hex. discriminate.
   Qed.
 
   (* not flagged too costly: fewer than f_dest + 1 distinct oracles list the message's id *)
@@ -942,8 +959,8 @@ Section Cycle.
     (Z.of_nat (length rs) < EM.f_dest dest fc2 + 1)%Z.
   Proof.
     intros Hr Hmm NDr Hne Hrs.
-    destruct (cycle_message r mm Hr Hmm) as [_ [x [j [fj [cd2 [xm [fk [i [p [td H]]]]]]]]]].
-    destruct H as [_ [_ [_ [_ [_ [_ [_ [_ [_ [_ [_ [_ [_ [_ [_ [_ [_ [_ [_ [_ [_ [_ [_ [Hc _]]]]]]]]]]]]]]]]]]]]]]]].
+    destruct (cycle_message r mm Hr Hmm) as [_ [x [cd2 [xm [fk [i [p [td H]]]]]]]].
+    destruct H as [_ [_ [_ [_ [_ [_ [_ [_ [_ [_ [_ [_ [_ [_ [_ [_ [_ [_ [_ [_ [_ [_ [Hc _]]]]]]]]]]]]]]]]]]]]]]].
     destruct (Z.ltb_spec (Z.of_nat (length rs)) (EM.f_dest dest fc2 + 1)) as [Hlt|Hge]; [exact Hlt|exfalso].
     apply Hc. apply (EMP.merge_costly_complete _ (to_aos aos2) (m_id mm) rs); try assumption.
     - now rewrite to_aos_fst.
@@ -1085,10 +1102,11 @@ Proof.
 Qed.
 
 (* a full item reported by a quorum is in the consensus observation *)
-Lemma quorum_commit_merged sup bigF dest fchain aos m k f x :
+Lemma quorum_commit_merged sup bigF dest fchain aos m k x :
   NoDup (map fst aos) -> sys_validated sup dest fchain aos -> key_functional aos ->
   x_consensus bigF dest fchain aos = Ok m ->
-  In (k, f) fchain -> quorum (xcommits_of k) (f_plus_1 f) aos x -> (0 < f_plus_1 f)%N ->
+  In k (EM.keys fchain) -> quorum (xcommits_of k) (f_plus_1 (EM.f_dest dest fchain)) aos x ->
+  (0 < f_plus_1 (EM.f_dest dest fchain))%N ->
   exists l, In (k, l) (xg_commits m) /\ In x l.
 Proof.
   intros ND Hv Hkeys Hc Hf [rs [NDr [Hthr Hrs]]] Hpos.
@@ -1098,7 +1116,7 @@ Proof.
   assert (Hx : In x (xcommits_at k aos)).
   { destruct rs as [|o rs']; [congruence|]. destruct (proj1 (Hrs o) (or_introl eq_refl)) as [ob [Hi Hin]].
     apply xcommits_at_in. now exists o, ob. }
-  destruct (EMP.merge_commits_complete sup dest fchain (to_aos aos) k f (to_commit x) rs) as [r [l [Hr [Hkl Hin]]]];
+  destruct (EMP.merge_commits_complete sup dest fchain (to_aos aos) k (to_commit x) rs) as [r [l [Hr [Hkl Hin]]]];
     try assumption.
   - now rewrite to_aos_fst.
   - intros o Ho. apply Hrs in Ho. destruct Ho as [ob [Hi Hin]]. exists (to_obs ob). split; [now apply to_aos_in|].
@@ -1108,6 +1126,74 @@ Proof.
     + unfold rich. cbn [xg_commits]. apply in_map_iff. exists (k, l). split; [reflexivity|exact Hkl].
     + unfold by_ckey. apply sort_by_in. apply in_flat_map. exists (to_commit x). split; [exact Hin|].
       rewrite (rich_commit_self k aos x Hkeys Hx). now left.
+Qed.
+
+(* ---------- the agreed reports, flattened, hold no report twice ---------- *)
+Lemma nodup_flat_map_tagged {A B K} (f : A -> list B) (key : A -> K) (tag : B -> K) l :
+  NoDup (map key l) -> (forall a, In a l -> NoDup (f a)) -> (forall a b, In a l -> In b (f a) -> tag b = key a) ->
+  NoDup (flat_map f l).
+Proof.
+  induction l as [|a l IH]; intros NDk Hnd Htag; cbn [flat_map]; [constructor|].
+  cbn [map] in NDk. inversion NDk as [|? ? Hn NDk']; subst.
+  apply EMP.nodup_app.
+  - apply Hnd. now left.
+  - apply IH; [exact NDk'| |]; intros; [apply Hnd|eapply Htag]; try (right; eassumption); eassumption.
+  - intros b Hb1 Hb2. apply in_flat_map in Hb2. destruct Hb2 as [a' [Ha' Hb2]]. apply Hn.
+    rewrite <- (Htag a b (or_introl eq_refl) Hb1), (Htag a' b (or_intror Ha') Hb2). now apply in_map.
+Qed.
+
+Lemma per_chain_keys_nodup {T} (eqb : T -> T -> bool) items fc :
+  NoDup (map fst fc) -> NoDup (map fst (EM.per_chain eqb items fc)).
+Proof.
+  unfold EM.per_chain. induction fc as [|[k f] fc IH]; intros ND; cbn [flat_map map fst snd]; [constructor|].
+  cbn [map fst] in ND. inversion ND as [|? ? Hn ND']; subst.
+  destruct (valid eqb (f_plus_1 f) (items k)) as [|v vs]; [now apply IH|].
+  cbn [app map fst]. constructor; [|now apply IH].
+  intros Hin. apply Hn. apply in_map_iff in Hin. destruct Hin as [[k' l'] [E Hin]]. cbn in E. subst k'.
+  apply in_flat_map in Hin. destruct Hin as [[k2 f2] [Hi2 Hin]]. cbn [fst snd] in Hin.
+  destruct (valid eqb (f_plus_1 f2) (items k2)); [destruct Hin|]. destruct Hin as [E|[]]. inversion E; subst.
+  apply in_map_iff. now exists (k, f2).
+Qed.
+
+Lemma valid_nodup {T} (eqb : T -> T -> bool) (eqb_spec : forall x y, reflect (x = y) (eqb x y)) thr items :
+  NoDup (valid eqb thr items).
+Proof. unfold valid. apply NoDup_filter. apply (dedup_nodup eqb eqb_spec). Qed.
+
+Lemma merged_flat_nodup sup bigF dest fchain aos m :
+  NoDup (map fst aos) -> sys_validated sup dest fchain aos -> key_functional aos ->
+  x_consensus bigF dest fchain aos = Ok m -> NoDup (EM.keys fchain) ->
+  NoDup (flat_map snd (sort_by (fun a b => N.leb (fst a) (fst b)) (xg_commits m))).
+Proof.
+  intros ND Hv Hkeys Hc NDf.
+  assert (Hsrc : forall j l y, In (j, l) (xg_commits m) -> In y l -> c_src (xc_cd y) = j).
+  { intros j l y Hj Hy. exact (proj1 (proj2 (merged_commit_quorum sup bigF dest fchain aos m ND Hv Hkeys Hc j l y Hj Hy))). }
+  destruct (x_consensus_inv _ _ _ _ _ Hc) as [g [Hg Em]].
+  destruct (get_consensus_inv _ _ _ _ _ Hg) as [Hmc _].
+  apply (nodup_flat_map_tagged snd fst (fun y => c_src (xc_cd y))).
+  - (* chain keys: those of fChain with a valid report, once each *)
+    eapply Permutation_NoDup; [apply Permutation_map; symmetry; apply sort_by_perm|].
+    subst m. unfold rich. cbn [xg_commits]. rewrite map_map. cbn [fst].
+    unfold EM.merge_commits in Hmc. destruct (EM.unknown_key fchain EM.o_commits (to_aos aos)); [discriminate|].
+    inversion Hmc as [Hmc']. apply per_chain_keys_nodup. unfold EM.dest_fchain. rewrite map_map. exact NDf.
+  - intros [j l] Hj. apply sort_by_in in Hj. cbn [snd]. subst m. unfold rich in Hj. cbn [xg_commits] in Hj.
+    apply in_map_iff in Hj. destruct Hj as [[j' l0] [E Hj]]. cbn [fst snd] in E. inversion E; subst j' l; clear E.
+    unfold by_ckey. eapply Permutation_NoDup; [symmetry; apply sort_by_perm|].
+    apply (nodup_flat_map_tagged (rich_commit j aos) (fun c => c) to_commit).
+    + rewrite map_id. unfold EM.merge_commits in Hmc. destruct (EM.unknown_key fchain EM.o_commits (to_aos aos)); [discriminate|].
+      inversion Hmc as [Hmc']. rewrite <- Hmc' in Hj. apply EMP.per_chain_in in Hj. destruct Hj as [f [_ [-> _]]].
+      apply (valid_nodup EM.commit_eqb EMP.commit_eqb_spec).
+    + intros c _. unfold rich_commit. destruct (find _ _); repeat constructor. intros [].
+    + intros c y _ Hy. apply rich_commit_in in Hy. apply Hy.
+  - intros [j l] y Hj Hy. apply sort_by_in in Hj. cbn [fst snd] in *. exact (Hsrc j l y Hj Hy).
+Qed.
+
+Lemma filter_unique_length {A} (p : A -> bool) l x :
+  NoDup l -> (forall y, In y l -> p y = true -> y = x) -> length (filter p l) <= 1.
+Proof.
+  intros ND Hu. assert (NDf : NoDup (filter p l)) by now apply NoDup_filter.
+  assert (Hincl : incl (filter p l) [x]).
+  { intros y Hy. apply filter_In in Hy. left. symmetry. now apply Hu. }
+  exact (NoDup_incl_length NDf Hincl).
 Qed.
 
 Lemma quorum_msg_merged sup bigF dest fchain aos m k f x :
@@ -1499,16 +1585,20 @@ Section CycleLive.
   Hypothesis Hprev : (o_state prev = 0 \/ o_state prev = 1 \/ o_state prev = 4)%N.
 
   (* the commit report, its messages, the message in question (index i0) and its token data *)
-  Variables (x : xcommit) (ms : list xmsg) (i0 : nat) (x0 : xmsg) (T0 : list EM.tok) (f1 f2 : Z) (t : tree (H:=N)).
+  Variables (x : xcommit) (ms : list xmsg) (i0 : nat) (x0 : xmsg) (T0 : list EM.tok) (f2 : Z) (t : tree (H:=N)).
   Let cd0 := xc_cd x.
   Let k := c_src cd0.
   Let lo := c_start cd0.
   Let hi := c_end cd0.
   Let m0 := xm_msg x0.
-  (* GetCommitReports round: a quorum (f_k + 1 of the chain key it is filed under) observes the commit report *)
-  Hypothesis H1f : In (k, f1) fc1.
-  Hypothesis H1p : (0 < f_plus_1 f1)%N.
-  Hypothesis H1q : quorum (xcommits_of k) (f_plus_1 f1) aos1 x.
+  (* GetCommitReports round: a quorum of f_dest + 1 observes the commit report, and no other report of chain k with the
+     same root or an overlapping interval has one (at most f_dest destination readers deviate: exception F76 otherwise) *)
+  Hypothesis H1f : In k (EM.keys fc1).
+  Hypothesis H1n : NoDup (EM.keys fc1).
+  Hypothesis H1p : (0 < f_plus_1 (EM.f_dest dest fc1))%N.
+  Hypothesis H1q : quorum (xcommits_of k) (f_plus_1 (EM.f_dest dest fc1)) aos1 x.
+  Hypothesis H1r : forall y, quorum (xcommits_of k) (f_plus_1 (EM.f_dest dest fc1)) aos1 y ->
+                             conflicts (xc_cd x) (xc_cd y) = true -> y = x.
   Hypothesis Htd0 : c_td cd0 = [].
   (* GetMessages round: every message of the report's interval is observed by a quorum; no other message for a
      sequence number of the interval has a quorum (at most f_k deviating observers); someone files a token-data
@@ -1561,9 +1651,16 @@ Section CycleLive.
     destruct (consensus_total sup bigF dest fc2 aos2 V2 F2) as [m2 C2].
     destruct (consensus_total sup bigF dest fc3 aos3 V3 F3) as [m3 C3].
     (* round 1 *)
-    destruct (quorum_commit_merged sup bigF dest fc1 aos1 m1 k f1 x ND1 V1 K1 C1 H1f H1q H1p) as [l [Hkl Hxl]].
+    destruct (quorum_commit_merged sup bigF dest fc1 aos1 m1 k x ND1 V1 K1 C1 H1f H1q H1p) as [l [Hkl Hxl]].
     assert (Hp1 : In cd0 (o_pending (commit_reports_outcome m1))).
-    { apply commit_outcome_pending. exists k, l, x. repeat split; assumption. }
+    { apply commit_outcome_kept; [now exists k, l|]. unfold conflict_count. apply (filter_unique_length _ _ x).
+      - exact (merged_flat_nodup sup bigF dest fc1 aos1 m1 ND1 V1 K1 C1 H1n).
+      - intros y Hy Hc. apply commit_outcome_flat in Hy. destruct Hy as [j [l' [Hj Hy]]].
+        destruct (merged_commit_quorum sup bigF dest fc1 aos1 m1 ND1 V1 K1 C1 j l' y Hj Hy) as [_ [Hsrc Hq]].
+        assert (Ej : j = k).
+        { pose proof Hc as Hc'. unfold conflicts in Hc'. apply andb_prop in Hc'. destruct Hc' as [Hc' _].
+          apply N.eqb_eq in Hc'. unfold k, cd0. congruence. }
+        rewrite Ej in Hq. exact (H1r y Hq Hc). }
     set (o1 := commit_reports_outcome m1) in *.
     assert (R1 : Round bigF dest fc1 prev aos1 = Ok o1).
     { apply round_commit_eval; try assumption. intros E. fold o1 in E. rewrite E in Hp1. destruct Hp1. }
@@ -1813,6 +1910,13 @@ Module SysLive.
       vm_compute in Hx. in_cases Hx.
   Qed.
 
+  Lemma no_rival_commit y : quorum (xcommits_of 1) 2 aos1 y -> y = x.
+  Proof.
+    intros Hq. destruct (quorum_two _ _ _ _ Hq) as [o [o' [ob [ob' [Hne [H1 [H1' [H2 H2']]]]]]]]; [lia|].
+    cbn in H1, H2. in_cases H1; try (vm_compute in H1'; in_cases H1'; reflexivity).
+    in_cases H2; try (vm_compute in H2'; in_cases H2'; reflexivity); congruence.
+  Qed.
+
   Lemma q_msg y : In y [xm1; xm2] -> quorum (xmsgs_of 1) 2 aos2 y.
   Proof.
     intros Hy. in_cases Hy.
@@ -1854,7 +1958,7 @@ Module SysLive.
   Proof.
     apply (cycle_liveness h 999 leaf enc tg 1000000 1000000 nkey h_comm (fun r => ltac:(discriminate))
              sup 1%Z 9 fc fc fc out_init aos1 aos2 aos3 (nd4 _ _ _ _) (nd4 _ _ _ _))
-      with (x := x) (ms := [xm1; xm2]) (i0 := O) (x0 := xm1) (T0 := [tokA]) (f1 := 1%Z) (f2 := 1%Z) (t := t12).
+      with (x := x) (ms := [xm1; xm2]) (i0 := O) (x0 := xm1) (T0 := [tokA]) (f2 := 1%Z) (t := t12).
     - apply sys_validated_of_bool; vm_compute; reflexivity.
     - apply sys_validated_of_bool; vm_compute; reflexivity.
     - apply sys_validated_of_bool; vm_compute; reflexivity.
@@ -1865,8 +1969,10 @@ Module SysLive.
     - cbn; lia.
     - left; reflexivity.
     - cbn; tauto.
+    - repeat constructor; cbn; intuition discriminate.
     - vm_compute; reflexivity.
     - exact q_commit.
+    - intros y Hq _. exact (no_rival_commit y Hq).
     - reflexivity.
     - reflexivity.
     - intros f Hf. cbn in Hf. in_cases Hf. reflexivity.
@@ -1913,16 +2019,25 @@ Module SysLive.
   Qed.
 End SysLive.
 
-(* What the hypothesis [Hwf] of cycle_liveness excludes.  Commit reports are destination data, but
-   mergeCommitObservations counts them at the f of the chain KEY they are filed under, ValidateObservation does not
-   check the observer's role for commit reports (F07) nor that the key is the report's own source chain, and one pending
-   report that does not reproduce its root makes report.Builder.Add - hence the whole Filter outcome - fail.  So two
-   faulty oracles of seven (F = 2, f(chain 1) = f(destination) = 2), neither a reader of chain 2, file a forged report
-   for chain 1 under the key of chain 2 (f = 1): it becomes pending, gets the real messages attached, and every Filter
-   round fails for every oracle; the previous outcome never changes again, so nothing is executed for any source. *)
+(* ---------- the two defects the repairs F75 and F76 remove, on the functions as they were ---------- *)
+Definition sys_validated_nokeys (sup : N -> list N) (dest : N) (fchain : list (N * Z)) (aos : list sao) : Prop :=
+  EMP.validated_nokeys sup dest fchain (to_aos aos).
+Lemma sys_validated_nokeys_of_bool sup dest fchain aos :
+  forallb (fun a => EMP.wf_obsb (snd a) && EM.validate_nokeys (sup (fst a)) dest fchain (snd a)) (to_aos aos) = true ->
+  sys_validated_nokeys sup dest fchain aos.
+Proof. apply EMP.validated_nokeys_of_bool. Qed.
+
+(* F75.  Before the repair commit reports - destination data - were counted at the f of the chain KEY they were filed
+   under, and ValidateObservation checked for commit reports neither the observer's role (F07) nor that the key is the
+   report's own source chain; one pending report that does not reproduce its root makes report.Builder.Add - hence the
+   whole Filter outcome - fail.  So two faulty oracles of seven (F = 2, f(chain 1) = f(destination) = 2), neither a reader
+   of chain 2, filed a forged report for chain 1 under the key of chain 2 (f = 1): it became pending, got the real
+   messages attached, and every Filter round failed for every oracle; the previous outcome never changed again, so
+   nothing was executed for any source. *)
 Module SysPoison.
   Import SysEx.
   Local Open Scope N_scope.
+  Definition RoundU := exec_round_unfixed h 999 leaf enc tg 1000000 1000000 nkey.
   Definition fc7 : list (N * Z) := [(1, 2%Z); (2, 1%Z); (9, 2%Z)].
   Definition sup7 (o : N) : list N := if N.leb 5 o then [1; 9] else [1; 2; 9].
   Definition forged : xcommit := mkXC 60 1001 (mkCD 1 666 5 6 [] [] [] []).
@@ -1931,8 +2046,8 @@ Module SysPoison.
   Definition aos1 : list sao := hon h1 ++ [(5, p1); (6, p1)].
   Definition aos2 : list sao := hon h2 ++ [(5, h2); (6, h2)].
   Definition aos3 : list sao := hon h3 ++ [(5, h3); (6, h3)].
-  Definition o1 : outcome := Eval vm_compute in match Round 2 9 fc7 out_init aos1 with Ok o => o | _ => out_init end.
-  Definition o2 : outcome := Eval vm_compute in match Round 2 9 fc7 o1 aos2 with Ok o => o | _ => out_init end.
+  Definition o1 : outcome := Eval vm_compute in match RoundU 2 9 fc7 out_init aos1 with Ok o => o | _ => out_init end.
+  Definition o2 : outcome := Eval vm_compute in match RoundU 2 9 fc7 o1 aos2 with Ok o => o | _ => out_init end.
 
   Lemma nd7 (a b : sobs) : NoDup (map fst (hon a ++ [(5, b); (6, b)])).
   Proof. cbn. repeat constructor; cbn; intuition discriminate. Qed.
@@ -1941,7 +2056,7 @@ Module SysPoison.
 
   Theorem poisoned :
     NoDup (map fst aos1) /\ NoDup (map fst aos2) /\ NoDup (map fst aos3) /\
-    sys_validated sup7 9 fc7 aos1 /\ sys_validated sup7 9 fc7 aos2 /\ sys_validated sup7 9 fc7 aos3 /\
+    sys_validated_nokeys sup7 9 fc7 aos1 /\ sys_validated_nokeys sup7 9 fc7 aos2 /\ sys_validated_nokeys sup7 9 fc7 aos3 /\
     key_functional aos1 /\ key_functional aos2 /\
     (* five honest oracles with one view in every round; oracles 5 and 6 deviate in the first round only, are within
        F = 2 = f(1) = f(9), and do not read chain 2 *)
@@ -1949,15 +2064,19 @@ Module SysPoison.
     (forall o, In o [5; 6] -> ~ In 2 (sup7 o) /\ In (o, h2) aos2 /\ In (o, h3) aos3) /\
     (* the real report and its messages have their quorums, message 5 is eligible (see SysLive) *)
     quorum (xcommits_of 1) (f_plus_1 2) aos1 x /\
-    Round 2 9 fc7 out_init aos1 = Ok o1 /\ In (xc_cd x) (o_pending o1) /\
-    Round 2 9 fc7 o1 aos2 = Ok o2 /\
-    Round 2 9 fc7 o2 aos3 = Err /\
-    forall n, exec_run h 999 leaf enc tg 1000000 1000000 nkey 2 9 o2 (repeat (fc7, aos3) n) = o2.
+    RoundU 2 9 fc7 out_init aos1 = Ok o1 /\ In (xc_cd x) (o_pending o1) /\
+    RoundU 2 9 fc7 o1 aos2 = Ok o2 /\
+    RoundU 2 9 fc7 o2 aos3 = Err /\
+    (forall n, exec_run_unfixed h 999 leaf enc tg 1000000 1000000 nkey 2 9 o2 (repeat (fc7, aos3) n) = o2) /\
+    (* the repaired code: both observations of the faulty oracles are refused, and even if they were not, the forged
+       report (two reporters, below f_dest + 1 = 3) is not agreed: the round ends with the real report alone *)
+    EM.validate (sup7 5) 9 fc7 (to_obs p1) = false /\ EM.validate (sup7 6) 9 fc7 (to_obs p1) = false /\
+    (forall o, Round 2 9 fc7 out_init aos1 = Ok o -> o_pending o = [xc_cd x]).
   Proof.
     split; [apply nd7|]. split; [apply nd7|]. split; [apply nd7|].
-    split; [apply sys_validated_of_bool; vm_compute; reflexivity|].
-    split; [apply sys_validated_of_bool; vm_compute; reflexivity|].
-    split; [apply sys_validated_of_bool; vm_compute; reflexivity|].
+    split; [apply sys_validated_nokeys_of_bool; vm_compute; reflexivity|].
+    split; [apply sys_validated_nokeys_of_bool; vm_compute; reflexivity|].
+    split; [apply sys_validated_nokeys_of_bool; vm_compute; reflexivity|].
     split.
     { apply key_functional_of_lists.
       - intros y y' Hy Hy' E. vm_compute in Hy, Hy'. in_cases Hy; in_cases Hy'; try reflexivity; discriminate E.
@@ -1976,13 +2095,15 @@ Module SysPoison.
       - intros [ob [Hi _]]. cbn in Hi. in_cases Hi; cbn; tauto. }
     split; [vm_compute; reflexivity|]. split; [vm_compute; tauto|].
     split; [vm_compute; reflexivity|].
-    assert (E3 : exec_round h 999 leaf enc tg 1000000 1000000 nkey 2 9 fc7 o2 aos3 = Err) by (vm_compute; reflexivity).
-    split; [exact E3|].
-    induction n as [|n IH]; [reflexivity|]. cbn [repeat]. unfold exec_run in *. cbn [fold_left].
-    unfold exec_step at 2. cbn [fst snd]. rewrite E3. exact IH.
+    assert (E3 : exec_round_unfixed h 999 leaf enc tg 1000000 1000000 nkey 2 9 fc7 o2 aos3 = Err) by (vm_compute; reflexivity).
+    split; [exact E3|]. split.
+    { induction n as [|n IH]; [reflexivity|]. cbn [repeat]. unfold exec_run_unfixed in *. cbn [fold_left fst snd].
+      rewrite E3. exact IH. }
+    split; [vm_compute; reflexivity|]. split; [vm_compute; reflexivity|].
+    intros o Ho. vm_compute in Ho. inversion Ho. reflexivity.
   Qed.
 
-  (* On the real plugins the stall comes one round earlier: the honest GetMessages observation repeats the pending
+  (* On the real plugins the stall came one round earlier: the honest GetMessages observation repeats the pending
      reports of the previous outcome grouped by their source chain (execute/observation.go: regroup), so the real and
      the forged report of chain 1 sit under one key, validateObservedSequenceNumbers calls them overlapping and
      ValidateObservation refuses EVERY honest observation; with no observation accepted the Outcome fails. *)
@@ -1990,20 +2111,20 @@ Module SysPoison.
     mkSO [(1, map (fun cd => mkXC (c_root cd) 0 cd) (o_pending o1))] [(1, [(5, xm1); (6, xm2)])] [(1, [(5, [tokA]); (6, [])])] [] [].
   Theorem poisoned_getmessages :
     map c_root (o_pending o1) = [root; 666] /\
-    (forall o, EM.validate (sup7 o) 9 fc7 (to_obs regrouped) = false) /\
-    Round 2 9 fc7 o1 [] = Err.
+    (forall o, EM.validate_nokeys (sup7 o) 9 fc7 (to_obs regrouped) = false) /\
+    RoundU 2 9 fc7 o1 [] = Err.
   Proof.
     split; [vm_compute; reflexivity|]. split; [|vm_compute; reflexivity].
     intros o. unfold sup7. destruct (N.leb 5 o); vm_compute; reflexivity.
   Qed.
 End SysPoison.
 
-Theorem cycle_liveness_poisoned_refuted :
+Theorem cycle_liveness_poisoned_unfixed_refuted :
   exists (sup : N -> list N) (bigF : Z) (dest : N) (fc : list (N * Z)) (aos1 aos2 aos3 : list sao) (o1 o2 : outcome)
          (x : xcommit) (honest faulty : list N),
-    let Round := exec_round SysEx.h 999%N SysEx.leaf SysEx.enc SysEx.tg 1000000%N 1000000%N SysEx.nkey in
+    let RoundU := exec_round_unfixed SysEx.h 999%N SysEx.leaf SysEx.enc SysEx.tg 1000000%N 1000000%N SysEx.nkey in
     NoDup (map fst aos1) /\ NoDup (map fst aos2) /\ NoDup (map fst aos3) /\
-    sys_validated sup dest fc aos1 /\ sys_validated sup dest fc aos2 /\ sys_validated sup dest fc aos3 /\
+    sys_validated_nokeys sup dest fc aos1 /\ sys_validated_nokeys sup dest fc aos2 /\ sys_validated_nokeys sup dest fc aos3 /\
     key_functional aos1 /\ key_functional aos2 /\
     (* every honest oracle sends the same observation in each round; the faulty ones send it too in rounds 2 and 3 *)
     (exists ob1 ob2 ob3, forall o, In o honest -> In (o, ob1) aos1 /\ In (o, ob2) aos2 /\ In (o, ob3) aos3) /\
@@ -2012,21 +2133,75 @@ Theorem cycle_liveness_poisoned_refuted :
     (Z.of_nat (length faulty) <= bigF)%Z /\ alookup (c_src (xc_cd x)) fc = Some bigF /\ alookup dest fc = Some bigF /\
     (* the real commit report has its quorum and is pending ... *)
     quorum (xcommits_of (c_src (xc_cd x))) (f_plus_1 bigF) aos1 x /\
-    Round bigF dest fc out_init aos1 = Ok o1 /\ In (xc_cd x) (o_pending o1) /\
-    Round bigF dest fc o1 aos2 = Ok o2 /\
+    RoundU bigF dest fc out_init aos1 = Ok o1 /\ In (xc_cd x) (o_pending o1) /\
+    RoundU bigF dest fc o1 aos2 = Ok o2 /\
     (* ... but the Filter round fails, now and in every later round *)
-    Round bigF dest fc o2 aos3 = Err /\
-    forall n, exec_run SysEx.h 999%N SysEx.leaf SysEx.enc SysEx.tg 1000000%N 1000000%N SysEx.nkey bigF dest o2
-                       (repeat (fc, aos3) n) = o2.
+    RoundU bigF dest fc o2 aos3 = Err /\
+    (forall n, exec_run_unfixed SysEx.h 999%N SysEx.leaf SysEx.enc SysEx.tg 1000000%N 1000000%N SysEx.nkey bigF dest o2
+                       (repeat (fc, aos3) n) = o2) /\
+    (* with the repairs: the faulty observations are refused, and the round would agree the real report alone *)
+    (forall o, In o faulty -> exists ob, In (o, ob) aos1 /\ EM.validate (sup o) dest fc (to_obs ob) = false) /\
+    (forall o, exec_round SysEx.h 999%N SysEx.leaf SysEx.enc SysEx.tg 1000000%N 1000000%N SysEx.nkey bigF dest fc out_init aos1 = Ok o ->
+               o_pending o = [xc_cd x]).
 Proof.
-  destruct SysPoison.poisoned as [A1 [A2 [A3 [A4 [A5 [A6 [A7 [A8 [A9 [A10 [A11 [A12 [A13 [A14 [A15 A16]]]]]]]]]]]]]]].
+  destruct SysPoison.poisoned
+    as [A1 [A2 [A3 [A4 [A5 [A6 [A7 [A8 [A9 [A10 [A11 [A12 [A13 [A14 [A15 [A16 [A17 [A18 A19]]]]]]]]]]]]]]]]]].
   exists SysPoison.sup7, 2%Z, 9%N, SysPoison.fc7, SysPoison.aos1, SysPoison.aos2, SysPoison.aos3, SysPoison.o1, SysPoison.o2,
          SysEx.x, [0; 1; 2; 3; 4]%N, [5; 6]%N.
   cbv zeta. repeat (split; [assumption|]).
   split; [exists SysEx.h1, SysEx.h2, SysEx.h3; exact A9|].
   split; [reflexivity|]. split; [cbn; lia|]. split; [reflexivity|]. split; [reflexivity|].
-  split; [exact A11|]. split; [exact A12|]. split; [exact A13|]. split; [exact A14|]. split; [exact A15|exact A16].
+  split; [exact A11|]. split; [exact A12|]. split; [exact A13|]. split; [exact A14|]. split; [exact A15|].
+  split; [exact A16|]. split; [|exact A19].
+  intros o [<-|[<-|[]]]; exists SysPoison.p1; (split; [cbn; tauto|assumption]).
 Qed.
+
+(* F76.  Before the repair two versions of one commit report that both reach f_dest + 1 reporters - here: oracles 0 and 1
+   see message 5 executed, oracle 2 reads the destination late and the faulty oracle 3 seconds it, f = 1 - were BOTH
+   pending.  The honest GetMessages observation then repeats both under one chain key, validateObservedSequenceNumbers
+   calls them overlapping, every observation is refused (on the real plugins Observation itself fails before that:
+   computeRanges, "overlapping sequence numbers in reports") and no round succeeds any more.  The repaired
+   getCommitReportsOutcome drops both versions: the outcome is empty, the next round reads the destination again. *)
+Module SysSplit.
+  Import SysEx.
+  Local Open Scope N_scope.
+  Definition RoundU := exec_round_unfixed h 999 leaf enc tg 1000000 1000000 nkey.
+  Definition cur : sobs := mkSO [(1, [xv])] [] [] [] [].       (* message 5 executed *)
+  Definition stale : sobs := mkSO [(1, [x])] [] [] [] [].      (* the same report one cycle earlier *)
+  Definition aosS : list sao := [(0, cur); (1, cur); (2, stale); (3, stale)].
+  Definition o1u : outcome := Eval vm_compute in match RoundU 1 9 fc out_init aosS with Ok o => o | _ => out_init end.
+  Definition regrouped : sobs :=
+    mkSO [(1, map (fun cd => mkXC (N.of_nat (length (c_exec cd))) 0 cd) (o_pending o1u))] [] [] [] [].
+
+  Ltac in_cases H := repeat (destruct H as [H|H]; [try (inversion H; subst; clear H)|]); try destruct H.
+
+  Theorem split_view :
+    NoDup (map fst aosS) /\ sys_validated sup 9 fc aosS /\ key_functional aosS /\
+    quorum (xcommits_of 1) (f_plus_1 1) aosS xv /\ quorum (xcommits_of 1) (f_plus_1 1) aosS x /\
+    RoundU 1 9 fc out_init aosS = Ok o1u /\ map c_exec (o_pending o1u) = [[]; [5]] /\
+    (forall o, EM.validate (sup o) 9 fc (to_obs regrouped) = false) /\
+    RoundU 1 9 fc o1u [] = Err /\
+    Round 1 9 fc out_init aosS = Ok (mkOut 1 [] []).
+  Proof.
+    split; [apply nd4|]. split; [apply sys_validated_of_bool; vm_compute; reflexivity|].
+    split.
+    { apply key_functional_of_lists.
+      - intros y y' Hy Hy' E. vm_compute in Hy, Hy'. in_cases Hy; in_cases Hy'; try reflexivity; discriminate E.
+      - intros y y' Hy. vm_compute in Hy. destruct Hy. }
+    split.
+    { exists [0; 1]. split; [repeat constructor; cbn; intuition discriminate|]. split; [vm_compute; discriminate|].
+      intros o. split.
+      - intros Ho. in_cases Ho; exists cur; (split; [cbn; tauto|vm_compute; tauto]).
+      - intros [ob [Hi Hx]]. cbn in Hi. in_cases Hi; try (cbn; tauto); vm_compute in Hx; in_cases Hx. }
+    split.
+    { exists [2; 3]. split; [repeat constructor; cbn; intuition discriminate|]. split; [vm_compute; discriminate|].
+      intros o. split.
+      - intros Ho. in_cases Ho; exists stale; (split; [cbn; tauto|vm_compute; tauto]).
+      - intros [ob [Hi Hx]]. cbn in Hi. in_cases Hi; try (cbn; tauto); vm_compute in Hx; in_cases Hx. }
+    split; [vm_compute; reflexivity|]. split; [vm_compute; reflexivity|].
+    split; [intros o; vm_compute; reflexivity|]. split; vm_compute; reflexivity.
+  Qed.
+End SysSplit.
 
 (* ====================================================================================================== *)
 (*  8. histories: the cycle theorems hold for the Filter rounds of every history of rounds                 *)
